@@ -461,7 +461,7 @@ for nm, what, q in [
     ("c15_eval_malformed_not", "eval NOT with 0..3 operand tokens of any kind: executes iff exactly two registers; surplus operands refused", True),
     ("c15_eval_not_an_instruction", "eval of a non-instruction token / empty text: refused", False),
 ]:
-    H("C15", f"debugger::eval::verif_h::{nm}", EVALF, tier=("quick" if q else "thorough"), uf=True, covers=2, stubs=EVAL_STUBS, timeout=3000, mem_gb=24,
+    H("C15", f"debugger::eval::verif_h::{nm}", EVALF, tier=("quick" if q else "thorough"), uf=False, replayable=False, covers=2, stubs=EVAL_STUBS, timeout=3000, mem_gb=24,
       functions=["eval_inner", "AsmParser::parse_simple", "AsmParser::parse_instr", "AsmParser::parse_trap", "AsmLine::backpatch", "AsmLine::emit", "AsmLine::bit_offs"],
       what=what, bounds="one eval; label name 'ab'")
 
